@@ -143,14 +143,16 @@ PROPS['C12'] = {
 }
 
 PROPS['C18'] = {
-    'module': 'Yabgp.Props.C18',
+    'module': 'Yabgp.Props.C18All',
     'theorems': ['Yabgp.C18_received_counted_once', 'Yabgp.C18_received_cumulative', 'Yabgp.C18_sent_counted_once',
-                 'Yabgp.C18_increments_are_single'],
+                 'Yabgp.C18_increments_are_single', 'Yabgp.C18_sent_step', 'Yabgp.C18_sent_cumulative'],
     'genagree': SESSION_GEN,
     'suites': ['session', 'framing'],
     'cannot': SESSION_CANNOT + '; received side: cumulative over any byte stream (C18_received_cumulative: the counters move by exactly the '
-              'increments owed for the frames dispatched, in order); sent side: per send (counted once, written once on the tracked '
-              'connection) - the cumulative equality with the transport write log over a whole history is checked by the oracle',
+              'increments owed for the frames dispatched, in order); sent side: C18_sent_cumulative - after any history of enabled events '
+              'from the agent\'s start the sent counter of every connection and type equals the number of such messages written to it '
+              '(invariant over all runs, using the reachable-state invariants of C02/C12 at every send site); UPDATE / ROUTE-REFRESH '
+              'sends through the REST API are outside the session model (C16 covers what they write), their counters are compared by the oracle',
 }
 
 PROPS['C09'] = {
@@ -270,21 +272,26 @@ PROPS['C20'] = {
 }
 
 PROPS['C02'] = {
-    'module': 'Yabgp.Props.C02',
-    'theorems': ['Yabgp.C02_never_stuck', 'Yabgp.heal_step', 'Yabgp.heal_first', 'Yabgp.C02_idle_hold_expiry_reconnects',
+    'module': 'Yabgp.Props.C02All',
+    'theorems': ['Yabgp.C02_reestablishes', 'Yabgp.C02_reestablishes_and_stays_up', 'Yabgp.reestablish', 'Yabgp.reach_of_run',
+                 'Yabgp.reach_step', 'Yabgp.reach_first', 'Yabgp.reach_openWire', 'Yabgp.evo_step', 'Yabgp.cl_step', 'Yabgp.rb_step',
+                 'Yabgp.Core.cl_stepOutcome', 'Yabgp.Core.cl_frameOutcome', 'Yabgp.Core.connLost_idle', 'Yabgp.wait_for_idle_hold',
+                 'Yabgp.constructOpen_le',
+                 'Yabgp.C02_never_stuck', 'Yabgp.heal_step', 'Yabgp.heal_first', 'Yabgp.C02_idle_hold_expiry_reconnects',
                  'Yabgp.C02_retry_expiry_reconnects', 'Yabgp.C02_owed_close_arms_idle_hold',
                  'Yabgp.C02_heals_from_idle_hold', 'Yabgp.heal_to_openSent', 'Yabgp.heal_from_openSent',
                  'Yabgp.C02_stays_established', 'Yabgp.Core.heal_frameOutcome', 'Yabgp.Core.heal_stepOutcome',
                  'Yabgp.core_step_inv', 'Yabgp.C05_open_fields', 'Yabgp.C01_open_accepted'],
     'genagree': SESSION_GEN,
     'suites': ['heal', 'session'],
-    'cannot': SESSION_CANNOT + '; PARTIAL on the liveness half: "never stuck" (a session on a live connection, or a reconnection '
-              'timer running, or a close still to be reported) is proved for EVERY event sequence incl. the multi-connection '
-              'histories; re-establishment is proved from the resting situation (Idle, idle-hold timer due) for every value of '
-              'everything else in the state, and "stays Established under KEEPALIVE traffic" for every such run; the bounded '
-              'liveness from EVERY reachable state under every fair schedule is decided by the heal suite on the implementation '
-              '(lockstep with the model), not by a theorem; the capability part of "same parameters" is the known finding '
-              'C02-capability-leak',
+    'cannot': SESSION_CANNOT + '; safety: "never stuck" for EVERY event sequence; liveness: C02_reestablishes - from EVERY state reachable '
+              'after the agent\'s start in which the operator has not stopped the peer there is a continuation made only of what a '
+              'well-behaved peer, the clock and due timers do (it drops a connection, accepts TCP, sends its valid OPEN and a KEEPALIVE) '
+              'that reaches Established within one idle-hold period of virtual time with hold time min(configured, proposed), and '
+              '(C02_reestablishes_and_stays_up) the session then stays Established under keepalive traffic; the only side condition is '
+              'that the configured OPEN is encodable.  The theorem exhibits ONE cooperative schedule; that every fair schedule of a '
+              'cooperative peer does so is what the heal suite samples on the implementation (lockstep with the model).  The capability '
+              'part of "same parameters" is the known finding C02-capability-leak',
     'level_text': 'Lean 4: a control-skeleton abstraction of the session model (core : Sess -> Core) with a refinement lemma for '
                   'every action (core (f s) = fC (core s), frame handling as a finite outcome set), and on it the invariant Heal '
                   'proved inductive over ALL events => C02_never_stuck for every history after the first start; each pending item '
